@@ -111,7 +111,7 @@ let register () =
       | _ -> "bad-args");
   (* end-to-end: ServerManager.serveHls histories (requests / add_ip_blacklist / clock) *)
   Registry.register "c14.servehls" (function
-      | [flags; key; ovr; sub; scen; md5t; pqt; low; pqallt] ->
+      | [flags; key; ovr; sub; timeout; scen; md5t; pqt; low; pqallt] ->
         let f = int_of_string flags in
         let cfg = { AuthSimple.sa_key = bytes_of_token key; sa_override = bytes_of_token ovr;
                     sa_pub_rtmp = bit f 0; sa_sub_rtmp = bit f 1; sa_sub_flv = bit f 2; sa_sub_ts = bit f 3;
@@ -120,20 +120,33 @@ let register () =
         let pqf = fun q -> parse_pq (lookup "pq" pqtab q) in
         let pqall = fun q -> (match parse_pq (lookup "pqall" pqalltab q) with Some l -> l | None -> failwith "pqall-E") in
         String.concat "|" (Stdlib.List.map (fun sc ->
+            (* a scenario may start with its own configuration  C:<flags>:<sub>:<timeout>  *)
+            let (cfg, sub, timeout, sc) =
+              match String.split_on_char ',' sc with
+              | first :: rest when String.length first > 2 && String.sub first 0 2 = "C:" ->
+                (match String.split_on_char ':' first with
+                 | [_; fl; sb; tm] -> ({ cfg with AuthSimple.sa_hls_m3u8 = bit (int_of_string fl) 6 }, sb, tm, String.concat "," rest)
+                 | _ -> failwith "bad scenario config")
+              | _ -> (cfg, sub, timeout, sc) in
             let ops = Stdlib.List.map (fun o ->
                 match String.split_on_char ':' o with
                 | ["G"; ip; path; q; _uri] -> AuthServeHls.ShGet (bytes_of_token ip, bytes_of_token path, bytes_of_token q)
                 | ["B"; ip; d] -> AuthServeHls.ShBlacklist (bytes_of_token ip, z_of_token d)
                 | ["S"; s] -> AuthServeHls.ShSleep (z_of_token s)
+                | ["K"; sid] -> AuthServeHls.ShKick (bytes_of_token sid)
+                | ["L"] -> AuthServeHls.ShList
                 | _ -> failwith "bad servehls op") (String.split_on_char ',' sc) in
+            (* the harness places operations 500 ms into a second and the handler's ticker at whole seconds *)
             let rs = AuthServeHls.sh_run (fn_total "md5" md5t) pqf (fn_total "lower" low) pqall cfg (bool_of_token sub) (sb_root ())
-                AuthServeHls.hls_state0 (z_of_int 1000) ops in
+                (z_of_token timeout) (z_of_int 0) AuthServeHls.hls_state0 (z_of_int 1000500) ops in
             if rs = [] then "-" else String.concat "," (Stdlib.List.map (function
                 | AuthServeHls.HrFile p -> if Stdlib.List.mem (string_of_bytes p) sb_files then "200:" ^ hex_of_bytes p else "404"
                 | AuthServeHls.HrInvalid -> "302"
                 | AuthServeHls.HrBlocked -> "404"
                 | AuthServeHls.HrNoSession -> "404"
                 | AuthServeHls.HrRedirect sid -> "302r:" ^ hex_of_bytes sid
+                | AuthServeHls.HrKick b -> if b then "K1" else "K0"
+                | AuthServeHls.HrListed n -> "L" ^ string_of_int (int_of_n n)
                 | AuthServeHls.HrAuthFail -> "200-empty") rs)) (String.split_on_char '|' scen))
       | _ -> "bad-args");
   Registry.register "c14.secret" (function
